@@ -29,6 +29,10 @@ def run(chk, ctx) -> None:
     _street(chk, ctx)
     from .cover import board_rows
     board_rows(chk, ctx, 'C10.board')
+    # "when the deck cannot cover a stud street": what can be dealt - asked without a count - is the deck plus the reshuffled reserve
+    from .c06 import _engine_cards
+    from .helpers import Refile
+    _engine_cards(Refile(chk, {'C06.engine_cards': 'C10.setup'}, only=lambda r, c: c == 'State.get_dealable_cards'), ctx)
 
 
 def _setup(chk, ctx) -> None:
